@@ -19,10 +19,11 @@ Families (every case is regenerated from its own seed string):
                  rational forms, nested form, arity of the certificate, …): model and implementation must agree on
                  ok | DeserializeException | other exception, and on the decoded object and its re-encoding when ok
 
-Judged on the implementation (independent of the model): decode(encode(x)) == x for every object inside the theorem's
-hypotheses (address texts canonical), decode(encode(x)) == x with the addresses rewritten canonically (oracle: the `socket`
-module) otherwise; re-encoding the decoded object reproduces the bytes; relay bytes == the RFC 8949 reference encoding
-of `[code, port, addr bytes…]`."""
+Judged on the implementation (independent of the model): the relay constructor raises exactly on address texts libc refuses
+and on bytes of the wrong length, and stores the canonical text of the address (oracle: the `socket` module);
+`PoolParams(...)` without relays holds `[]`; decode(encode(x)) == x for EVERY constructed object; re-encoding the decoded
+object reproduces the bytes; bytes == the RFC 8949 reference encoding of `[code, port, addr bytes…]` / of the flattened
+parameters.  The former counterexample witnesses (`01.2.3.4`, `0:0:0:0:0:0:0:1`, …) are replayed as ordinary cases."""
 from __future__ import annotations
 
 import random
@@ -55,87 +56,97 @@ def mcall(ctx, req):
 
 
 def relay_expect(j):
-    """independent expectation for a constructor relay: (ctor_ok, encodable, canonical, expected_prim | None, canonical ctor json)"""
+    """independent expectation for a constructor relay: (ctor_ok, expected_prim | None, canonical ctor json | None).
+    The constructor raises iff an address argument is a text libc refuses or bytes of the wrong length (oracle: the socket
+    module); otherwise it stores the canonical text of the address, and the relay is written as [code, port, address bytes…]."""
     if j["k"] != "addr":
         prim = [1, P.build_port(j["port"]), P.build_name(j["dns"])] if j["k"] == "name" else [2, P.build_name(j["dns"])]
-        return True, True, True, prim, j
-    out, canon, texts = [], True, {}
-    for key, v6 in (("ipv4", False), ("ipv6", True)):
-        a = j[key]
-        if a is not None and "b" in a:
-            try:
-                P.canon_ip(a, v6)
-            except (OSError, ValueError):
-                return False, False, False, None, None
+        return True, prim, j
+    out, texts = [], {}
     for key, v6 in (("ipv4", False), ("ipv6", True)):
         try:
-            stored, b, ct = P.canon_ip(j[key], v6)
+            _, b, ct = P.canon_ip(j[key], v6)
         except (OSError, ValueError, UnicodeError):
-            return True, False, False, None, None
+            return False, None, None
         out.append(b)
-        canon = canon and stored == ct
         texts[key] = None if ct is None else {"t": P.hx(ct)}
     cj = {"k": "addr", "port": j["port"], "ipv4": texts["ipv4"], "ipv6": texts["ipv6"]}
-    return True, True, canon, [0, P.build_port(j["port"]), out[0], out[1]], cj
+    return True, [0, P.build_port(j["port"]), out[0], out[1]], cj
+
+
+def noncanonical_args(j, cj):
+    """does a relay (or any relay of the parameters) carry an address TEXT that is not in canonical form?"""
+    if j is None or cj is None:
+        return False
+    if "relays" in j:
+        return any(noncanonical_args(a, b) for a, b in zip(j["relays"] or [], cj["relays"] or []))
+    return j["k"] == "addr" and any(j[k] is not None and "t" in j[k] and j[k] != cj[k] for k in ("ipv4", "ipv6"))
+
+
+def arg_class(a):
+    if a is None:
+        return "none"
+    if "b" in a:
+        return "bytes"
+    t = bytes.fromhex(a["t"]).decode("utf-8")
+    return "text"
 
 
 def check_relay(ctx, case):
-    rng = random.Random(case["seed"])
-    j = P.gen_relay(rng)
+    rng = random.Random(case.get("seed", ""))
+    j = case["relay"] if "seed" not in case else P.gen_relay(rng)          # fixed witnesses carry the relay itself
     desc = {**case, "relay": j}
-    ctor_ok, encodable, canonical, prim, cj = relay_expect(j)
+    ctor_ok, prim, cj = relay_expect(j)
     x, cerr = attempt(lambda: P.build_relay(j))
     ctx.count(f"pool-relay:{j['k']}")
     if j["k"] == "addr":
-        ctx.count("pool-relay:addr:ipv4=" + ("none" if j["ipv4"] is None else next(iter(j["ipv4"]))) + ",ipv6=" +
-                  ("none" if j["ipv6"] is None else next(iter(j["ipv6"]))))
-    if j.get("port") is not None and "port" in j:
+        ctx.count("pool-relay:addr:ipv4=" + arg_class(j["ipv4"]) + ",ipv6=" + arg_class(j["ipv6"]))
+    if j.get("port") is not None:
         p = int(j["port"]["i"])
         if p in (0, 65535) or p > 65535 or p < 0:
             ctx.count("pool-relay:port:" + ("out-of-range" if p > 65535 or p < 0 else str(p)))
     m = mcall(ctx, {"op": "pool.relay.mk", "r": j}) if ctx.have_driver() else None
     if (cerr is None) != ctor_ok:
-        ctx.violation("relay constructor: accepts / refuses against the socket oracle", desc, "ok" if ctor_ok else "raises",
+        ctx.violation("relay constructor: accepts / refuses against the socket oracle (a text libc refuses, bytes of the wrong "
+                      "length must raise; everything else must construct)", desc, "ok" if ctor_ok else "raises",
                       "ok" if cerr is None else type(cerr).__name__)
     if m is not None and (("err" in m) != (cerr is not None)):
         ctx.diff("pool.relay.mk(ctor)", desc, m, "raises" if cerr else "ok")
-    if cerr is not None:
-        ctx.count("pool-relay:constructor-raises")
+    if cerr is not None or not ctor_ok:
+        ctx.count("pool-relay:constructor-raises" if cerr is not None else "pool-relay:constructor-accepts-a-refused-address")
         ctx.case(case)
         return
+    want = P.build_relay(cj) if ctor_ok else None
+    if want is not None:
+        if noncanonical_args(j, cj):
+            ctx.count("pool-relay:noncanonical-text-argument")
+        # the constructor stores the canonical text of the address (oracle: the socket module)
+        if P.dump_relay(x) != P.dump_relay(want):
+            ctx.violation("relay constructor: the stored address text is not the canonical text of the address", desc,
+                          P.dump_relay(want), P.dump_relay(x))
     b, eerr = attempt(x.to_cbor)
-    if (eerr is None) != encodable:
-        ctx.violation("relay to_cbor: succeeds / raises against the socket oracle", desc, "ok" if encodable else "raises",
-                      "ok" if eerr is None else type(eerr).__name__)
+    if eerr is not None:
+        ctx.violation(f"relay: a constructed relay cannot be serialized ({type(eerr).__name__}: {str(eerr)[:100]})", desc, "bytes", "raises")
     if m is not None and "err" not in m:
         if P.unjunk(m["relay"]) != P.dump_relay(x):
             ctx.diff("pool.relay.mk(object)", desc, m["relay"], P.dump_relay(x))
         if (m["hex"] is None) != (eerr is not None) or (eerr is None and m["hex"] != b.hex()):
             ctx.diff("pool.relay.mk(hex)", desc, m["hex"], b.hex() if b else "raises")
         ctx.count("pool-relay:" + ("in_theorem_scope" if m["ok"] else "outside_theorem_scope"))
-        if m["ok"] != (encodable and canonical):
-            ctx.diff("pool.relay.mk(scope)", desc, m["ok"], encodable and canonical)
+        if not m["ok"]:
+            ctx.diff("pool.relay.mk(scope)", desc, m["ok"], "a constructed, well-typed relay")
     if eerr is not None:
-        ctx.count("pool-relay:unencodable")
         ctx.case(case)
         return
     desc["hex"] = b.hex()
-    if b != R.enc(prim):
+    if prim is not None and b != R.enc(prim):
         ctx.violation("relay: bytes differ from the reference encoding of [code, port, address bytes…]", desc, R.enc(prim).hex(), b.hex())
     y, derr = attempt(lambda: type(x).from_cbor(b))
     if derr is not None:
         ctx.violation(f"relay: the encoded relay cannot be decoded ({type(derr).__name__}: {str(derr)[:100]})", desc, "a relay", classify(derr))
     else:
-        want = P.build_relay(cj)
-        if canonical:
-            if not (y == x) or not (x == y):
-                ctx.violation("relay: decode(encode(x)) != x", desc, P.dump_relay(x), P.dump_relay(y))
-        else:
-            ctx.count("pool-relay:noncanonical-text:decoded!=original (relay_roundtrip_counterexample)" if y != x
-                      else "pool-relay:noncanonical-text:decoded==original")
-            ctx.skipped += 1
-        if not (y == want):
-            ctx.violation("relay: decode(encode(x)) is not x with its addresses in canonical text", desc, P.dump_relay(want), P.dump_relay(y))
+        if not (y == x) or not (x == y):
+            ctx.violation("relay: decode(encode(x)) != x", desc, P.dump_relay(x), P.dump_relay(y))
         b2, e2 = attempt(y.to_cbor)
         if b2 != b:
             ctx.violation("relay: re-encoding the decoded relay gives different bytes", desc, b.hex(), b2.hex() if b2 else repr(e2))
@@ -155,17 +166,16 @@ def check_relay(ctx, case):
 
 
 def params_expect(j):
-    """(constructible, encodable, canonical, canonical ctor json) by the socket oracle"""
+    """(constructible, canonical ctor json) by the socket oracle"""
     if j["relays"] is None:
-        return True, True, True, j
-    rs, enc, canon = [], True, True
+        return True, j
+    rs = []
     for r in j["relays"]:
-        c, e, k, _, cj = relay_expect(r)
+        c, _, cj = relay_expect(r)
         if not c:
-            return False, False, False, None
-        enc, canon = enc and e, canon and k
+            return False, None
         rs.append(cj)
-    return True, enc, canon, ({**j, "relays": rs} if enc else None)
+    return True, {**j, "relays": rs}
 
 
 def compare_dec(ctx, op, desc, d, y, derr, b):
@@ -194,17 +204,17 @@ def check_reg(ctx, case):
     j = P.gen_params(rng)
     whole = case.get("cls", "reg") == "reg"
     desc = {**case, "params": j}
-    ctor_ok, encodable, canonical, cj = params_expect(j)
+    ctor_ok, cj = params_expect(j)
     pp, cerr = attempt(lambda: P.build_params(j))
     if (cerr is None) != ctor_ok:
-        ctx.violation("PoolParams constructor arguments: accepts / refuses against the socket oracle", desc,
+        ctx.violation("PoolParams constructor arguments: a relay constructor accepts / refuses against the socket oracle", desc,
                       "ok" if ctor_ok else "raises", "ok" if cerr is None else type(cerr).__name__)
     op = "pool.reg.mk" if whole else "pool.params.mk"
     m = mcall(ctx, {"op": op, "p": j}) if ctx.have_driver() else None
     if m is not None and (("err" in m) != (cerr is not None)):
         ctx.diff(op + "(ctor)", desc, m, "raises" if cerr else "ok")
-    if cerr is not None:
-        ctx.count("pool-reg:constructor-raises")
+    if cerr is not None or not ctor_ok:
+        ctx.count("pool-reg:constructor-raises" if cerr is not None else "pool-reg:constructor-accepts-a-refused-address")
         ctx.case(case)
         return
     x = PoolRegistration(pp) if whole else pp
@@ -219,24 +229,28 @@ def check_reg(ctx, case):
     for c in (int(j["pledge"]), int(j["cost"])):
         if c < 0 or c >= 2**64:
             ctx.count("pool-reg:coin:" + ("negative" if c < 0 else "bignum"))
+    if j["relays"] is None and pp.relays != []:
+        ctx.violation("PoolParams(...) without relays does not hold the empty list", desc, [], repr(pp.relays))
+    wp = P.build_params(cj)
+    if P.dump_params(pp) != P.dump_params(wp):
+        ctx.violation("PoolParams: a relay constructed from an address text does not hold the canonical text of the address", desc,
+                      P.dump_params(wp), P.dump_params(pp))
     b, eerr = attempt(x.to_cbor)
-    if (eerr is None) != encodable:
-        ctx.violation(f"{cls.__name__}.to_cbor: succeeds / raises against the socket oracle", desc, "ok" if encodable else "raises",
-                      "ok" if eerr is None else f"{type(eerr).__name__}: {str(eerr)[:100]}")
+    if eerr is not None:
+        ctx.violation(f"{cls.__name__}.to_cbor raises on a constructed object ({type(eerr).__name__}: {str(eerr)[:100]})", desc, "bytes", "raises")
     if m is not None and "err" not in m:
         if P.unjunk(m["params"]) != P.dump_params(pp):
             ctx.diff(op + "(object)", desc, m["params"], P.dump_params(pp))
         if (m["hex"] is None) != (eerr is not None) or (eerr is None and m["hex"] != b.hex()):
             ctx.diff(op + "(hex)", desc, m["hex"], b.hex() if b else "raises")
         ctx.count("pool-reg:" + ("in_theorem_scope" if m["ok"] else "outside_theorem_scope"))
-        if m["ok"] != (encodable and canonical):
-            ctx.diff(op + "(scope)", desc, m["ok"], encodable and canonical)
+        if not m["ok"]:
+            ctx.diff(op + "(scope)", desc, m["ok"], "a constructed, well-typed object")
     if eerr is not None:
-        ctx.count("pool-reg:unencodable")
         ctx.case(case)
         return
     desc["hex"] = b.hex()
-    sp = P.spec_params({**j, "id": None}) if j["relays"] is not None and all(r["k"] == "addr" or r["dns"] is not None for r in j["relays"]) else None
+    sp = P.spec_params({**j, "id": None}) if all(r["k"] == "addr" or r["dns"] is not None for r in (j["relays"] or [])) else None
     if sp is not None:
         # independent rendering of `[3, *pool_params]` from the CDDL text (no value ranges), plus the optional trailing id
         prim = P.free_registration(*sp) + ([] if j["id"] is None else [bytes.fromhex(j["id"]).decode("utf-8")])
@@ -249,19 +263,11 @@ def check_reg(ctx, case):
         ctx.violation(f"{cls.__name__}: the encoded object cannot be decoded ({type(derr).__name__}: {str(derr)[:100]})", desc,
                       "an object", classify(derr))
     else:
-        wp = P.build_params(cj)
-        want = PoolRegistration(wp) if whole else wp
         ypp = y.pool_params if whole else y
-        if canonical:
-            if not (y == x) or not (x == y):
-                ctx.violation(f"{cls.__name__}: decode(encode(x)) != x", desc, P.dump_params(pp), P.dump_params(ypp))
-        else:
-            ctx.count("pool-reg:noncanonical-text:decoded!=original (relay_roundtrip_counterexample)" if y != x
-                      else "pool-reg:noncanonical-text:decoded==original")
-            ctx.skipped += 1
-        if not (y == want):
-            ctx.violation(f"{cls.__name__}: decode(encode(x)) is not x with its relay addresses in canonical text", desc,
-                          P.dump_params(wp), P.dump_params(ypp))
+        if noncanonical_args(j, cj):
+            ctx.count("pool-reg:noncanonical-text-argument")
+        if not (y == x) or not (x == y):
+            ctx.violation(f"{cls.__name__}: decode(encode(x)) != x", desc, P.dump_params(pp), P.dump_params(ypp))
         # the owner field: a list comes back as a list, a tagged set as a tagged set, an untagged set as a list
         got = P.dump_params(ypp)["owners"]
         exp_kind = "oset" if (ow["kind"] == "oset" and ow["tagged"]) else "list"
@@ -440,7 +446,7 @@ def check_body(ctx, case):
     from pycardano.serialization import NonEmptyOrderedSet
     rng = random.Random(case["seed"])
     j = P.gen_params(rng, allow_bad=False)
-    _, encodable, canonical, cj = params_expect(j)
+    _, cj = params_expect(j)
     reg = PoolRegistration(P.build_params(j))
     ret = PoolRetirement(PoolKeyHash(P.rbytes(rng, 28)), rng.choice([0, 1, 300, 2**32]))
     certs = [reg, ret] if rng.random() < 0.5 else [ret, reg]
@@ -454,7 +460,7 @@ def check_body(ctx, case):
     if eerr is not None:
         ctx.violation(f"TransactionBody with a pool registration cannot be serialized ({type(eerr).__name__})", desc, "bytes", str(eerr)[:160])
         return
-    ctx.count(f"pool-body:{form}:" + ("canonical" if canonical else "noncanonical-text"))
+    ctx.count(f"pool-body:{form}:" + ("noncanonical-text-argument" if noncanonical_args(j, cj) else "canonical"))
     desc["hex"] = bb.hex()
     item = R.dec(bb)
     field = dict((k, v) for k, v in item.pairs)[4]
@@ -529,19 +535,21 @@ def dispatch(ctx, case):
     KINDS[case["kind"]](ctx, case)
 
 
+WITNESSES = [
+    # the former counterexamples of relay_roundtrip_goal (repaired by 68e1e96): ordinary cases now, judged like any other
+    {"k": "addr", "port": {"i": "1"}, "ipv4": {"t": P.hx("01.2.3.4")}, "ipv6": None},
+    {"k": "addr", "port": {"i": "1"}, "ipv4": None, "ipv6": {"t": P.hx("0:0:0:0:0:0:0:1")}},
+    {"k": "addr", "port": None, "ipv4": {"t": P.hx("1.2.3")}, "ipv6": {"t": P.hx("ABCD::")}},
+    {"k": "addr", "port": None, "ipv4": {"t": P.hx("1.2.3.4 x")}, "ipv6": {"t": P.hx("::ffff:102:304")}},
+    # texts libc refuses: the constructor must raise
+    {"k": "addr", "port": None, "ipv4": {"t": P.hx("1.2.3.256")}, "ipv6": None},
+    {"k": "addr", "port": None, "ipv4": None, "ipv6": {"t": P.hx("1::2::3")}},
+]
+
+
 def witness_cases(ctx):
-    """the witnesses of the `_counterexample` theorems of Props/C01_Pool.lean, replayed on the implementation"""
-    from pycardano.pool_params import SingleHostAddr
-    for text, v6 in (("01.2.3.4", False), ("0:0:0:0:0:0:0:1", True)):
-        x = SingleHostAddr(port=1, **({"ipv6": text} if v6 else {"ipv4": text}))
-        y = SingleHostAddr.from_cbor(x.to_cbor())
-        ctx.count("pool-witness:noncanonical-text:" + ("decoded!=original (as the counterexample theorem says)" if y != x
-                                                        else "decoded==original (the counterexample no longer holds)"))
-        ctx.extra.setdefault("pool_witnesses", []).append({"text": text, "decoded": y.ipv6 if v6 else y.ipv4, "equal": y == x,
-                                                           "same_bytes": y.to_cbor() == x.to_cbor()})
-        if y == x and ctx.have_driver():
-            # the model says the two differ: then the model no longer says what the code does
-            ctx.diff("pool.witness.noncanonical-text", {"ext": EXT, "kind": "witness", "text": text}, "decoded != original", "equal")
+    for i, r in enumerate(WITNESSES):
+        check_relay(ctx, {"ext": EXT, "kind": "pool-relay", "witness": i, "relay": r})
 
 
 def run_ext(ctx):
@@ -574,8 +582,8 @@ def run_ext(ctx):
 
 
 def replay_ext(ctx, case):
-    if case.get("kind") == "witness":
-        witness_cases(ctx)
+    if "witness" in case:
+        check_relay(ctx, {"ext": EXT, "kind": "pool-relay", "witness": case["witness"], "relay": WITNESSES[case["witness"]]})
         return
     c = {k: v for k, v in case.items() if k in ("ext", "kind", "seed", "cls", "target", "damage")}
     dispatch(ctx, c)
